@@ -79,6 +79,44 @@ prop("C12", "exploration",
      "verbosity and input fragmentation. Oracle: all archives of a writer are byte-identical. Non-trivial: the source is longer than one average chunk; distinct: trace hash + archive size + run counts.",
      {"quick": {"runs": 6000, "max_secs": 150}, "thorough": {"runs": 200000, "max_secs": 1200}})
 
+prop("C05", "fault_enumeration",
+     "per run one clone scenario of the C02/C03 family through bita clone at the syscall seam (seeds, prior output, regular file or faked block device, local or HTTP). An uninterrupted execution counts W = write(2) calls on the output. "
+     "Crash family (2/3 of runs): for EVERY k in 0..W (20 sampled values incl. 0 and W-1 when W > 20) the clone runs under a drawn pool schedule with process death at the k-th write, torn after a prefix drawn from {0, 1, mid, len-1, all}: "
+     "user-space buffers and pending background writes are lost, the file as it is is the durable state; then 0..2 further crashed re-runs with --seed-output; then a fault-free, step-bounded bita clone --seed-output that must succeed and leave exactly the source. "
+     "Error family (1/3): the k-th write fails with ENOSPC/EIO, nothing or a short prefix written, INCLUDING the last write, with and without --verify-output: the run must not exit 0 unless the output is complete; the re-run completes. Legal short writes and EINTR must change nothing. "
+     "Non-trivial: at least one fault fired and W >= 3; distinct: trace hash + (W, crash points, family, device, in-place).",
+     {"quick": {"runs": 1600, "max_secs": 200}, "thorough": {"runs": 60000, "max_secs": 1500}},
+     ["crash model: process death, not power loss -- what write(2) returned for survives, tokio's user-space buffer and not-yet-run background writes do not; bita never calls fsync and the property's quantifier is exactly 'k-th write not performed, fully performed or torn after any prefix'",
+      "tear offsets are drawn from five classes per crash point rather than every byte"])
+prop("C07", "exploration",
+     "2/3 of runs: an archive (library writer) and a drawn subset of its descriptors as the ChunkIndex handed to Archive::chunk_stream over the simulated HTTP server -- uniform over all 2^n subsets for n <= 12 descriptors, density-driven (1/16 .. 16/16) above; "
+     "1/3: subsets induced by drawn seeds / prior output through bita clone over HTTP. Body fragmentation and delays drawn, no failures. Oracle: the ordered list of Range header strings logged by the server equals 'bytes=0-13', the rest of the header, "
+     "then exactly the maximal runs of stored-adjacent requested descriptors in descriptor order as 'bytes=<first>-<last>'. Non-trivial: at least two chunk-data requests and a proper subset; distinct: the subset pattern (or trace hash for clone runs).",
+     {"quick": {"runs": 20000, "max_secs": 150}, "thorough": {"runs": 600000, "max_secs": 1200}})
+prop("C08", "fault_enumeration",
+     "a random content, a drawn list of 1..10 ranges (adjacent runs, gaps, unordered, repeated/overlapping; sizes 1 B .. 70 KB, up to 3 MiB in the thorough tier) read through read_chunks or read_at. "
+     "Local: IoReader over a SimFile with drawn read fragmentation (1 byte .. whole), Pending at any poll, early EOF at a drawn offset. HTTP: HttpReader against a server that is correct when it answers, with a failure script drawn per request "
+     "(refused connection; body cut after c bytes with c drawn from {uniform, 0, all, all-1, first 8}; early EOF; stall + request timeout), retry budget 0..3, retry delay {0,1,30} s of virtual time. "
+     "Oracle over the recorded history: items are a prefix of the requested ranges' bytes in order, then at most one error, then nothing; a run with f <= R failures completes, f > R or an early EOF yields an error; "
+     "every (re)request's Range starts at the first byte not yet delivered and ends at the run's end; retry delays elapse in virtual time; the run finishes within the step budget. "
+     "Non-trivial: a retry was taken or at least two ranges; distinct: trace hash + (ranges, failures, fatal, single).",
+     {"quick": {"runs": 160000, "max_secs": 150}, "thorough": {"runs": 4000000, "max_secs": 1200}},
+     ["cut offsets are drawn per request (biased to the edges), not enumerated for every byte", "zero-length ranges belong to C15, no conforming archive has them"])
+prop("C14", "exploration",
+     "the grid {output absent, regular file, block device >= source, block device < source} x {--force-create, --seed-output, neither} x {valid archive (with or without a matching --verify-header), random bytes, empty file, bit flip in the header, "
+     "truncated header, --verify-header mismatch} x {local, HTTP} for clone, and {output absent, present} x {--force-create or not} for compress, is enumerated by a drawn cell index (148 cells; the evidence lists how often each refusal kind occurred); "
+     "archive, prior content, schedules drawn. Oracle for the four refusals the statement names: exit status non-zero; the output's bytes and length unchanged; no write / ftruncate / O_TRUNC on it at the syscall seam; for archive / header refusals the output path was never opened "
+     "(hence not created). Cells that must proceed must succeed with a correct output. Non-trivial: every run; distinct: trace hash + cell.",
+     {"quick": {"runs": 16000, "max_secs": 150}, "thorough": {"runs": 400000, "max_secs": 1200}},
+     ["header bit flips avoid the upper five bytes of the dictionary-size field (they make the reader attempt a petabyte allocation: C15's finding, fatal to a worker)"])
+prop("C16", "exploration",
+     "2/3 of runs: bita clone in all modes of the clone family (plain, seed files, stdin seed, in place, local, HTTP, +-verify-output, existing output with --force-create, faked block device) observed at the syscall seam: "
+     "every open with O_WRONLY/O_RDWR/O_CREAT/O_TRUNC/O_APPEND names the output path, no unlink/rename/mkdir, no truncate of another file, and the listing (names, sizes, Blake2) of the sandbox changed only at the output path. "
+     "1/3: bita compress (file / stdin, +-force, output names with and without extension and in a subdirectory): only the archive and its '.tmp' sibling are opened for writing, only that temp file is removed, and a successful run leaves exactly one new file. "
+     "Non-trivial: at least three file-system events; distinct: trace hash + shape.",
+     {"quick": {"runs": 16000, "max_secs": 150}, "thorough": {"runs": 400000, "max_secs": 1200}},
+     ["files opened through raw syscalls (none in the CLI paths; the tempfile crate in bitar's library writer) would not be seen by the link-time seam"])
+
 NOT_APPLICABLE = {
     "C10": "pure function of its input: quantifies over pairs of byte strings and configurations only; given C09 (same chunks under every read schedule) there is no schedule, clock, fault, crash or interleaving for a simulator to own. The mechanism it rests on (boundary decisions depend on the trailing window alone) is checked by C09's reference chunker, which is how F5 was found.",
 }
@@ -110,3 +148,16 @@ text("C11", "deterministic simulation: archives written under seeded pool schedu
 text("C12", "deterministic simulation: the same compression repeated under independently seeded schedules, buffering levels and input deliveries; byte comparison",
      "Seeded exploration over schedules: from an infinitely fast to an infinitely slow blocking pool, FIFO or drawn completion order. Found F4 (schedule-dependent truncated archive) before it was fixed. Sampling, not proof.",
      "Real: both writers, futures-util buffered(); port: tokio::fs::File; stub: blocking pool, stdin; the library's anonymous temp file is a real file outside the seam.")
+
+text("C05", "deterministic simulation with fault injection at the syscall seam: enumeration of crash points (k-th output write, torn prefix, lost write-behind state) and write errors, followed by bounded-liveness re-runs in place",
+     "Fault enumeration per scenario (every write index for W <= 20, 20 sampled otherwise; five tear classes) times seeded exploration over scenarios and schedules. Found F6 (exit 0 after the last write failed) before it was fixed. Not exhaustive over tear bytes.", CLONE_NOTE)
+text("C07", "deterministic simulation: the Range headers that reach the scripted server, for drawn descriptor subsets, compared with the maximal-adjacent-run model",
+     "Seeded exploration; uniform over all subsets for archives of <= 12 chunks. Sampling, not proof.",
+     "Trusted: RefFormat decoder, the run model (20 lines); real: bitar HttpReader/ChunkReader/HttpRangeRequest, Archive::chunk_stream; stub: reqwest + server.")
+text("C08", "deterministic simulation with network fault injection: scripted connection failures, body cuts, early EOF, stalls and timeouts under a virtual clock; history check of delivered items and re-request ranges",
+     "Fault sequences drawn per request with retry budgets 0..3, over random range lists; 1.6e5 (quick) to 4e6 (thorough) histories. Sampling of cut offsets, not every byte.",
+     "Real: bitar IoReader/IoChunkReader, HttpReader/ChunkReader/HttpRangeRequest incl. its retry state machine and tokio::time::sleep calls; stub: reqwest, server, clock, file (SimFile).")
+text("C14", "deterministic simulation: the refusal grid executed as simulated processes, observed at the syscall seam (opens, writes, truncates) and by before/after content",
+     "The 148-cell grid is covered many times per run of the check with drawn contents and schedules. Sampling of contents, complete over cells (reported).", CLONE_NOTE)
+text("C16", "deterministic simulation: every open/unlink/rename/mkdir/truncate of the simulated process recorded at the link-time syscall seam, plus sandbox listings before and after",
+     "Seeded exploration over all clone modes and compress configurations. Sampling, not proof.", CLONE_NOTE)
